@@ -23,7 +23,7 @@ import session
 import datafile_h as dh
 import cli
 
-IMPORTS = ["Model.DataFile"]
+IMPORTS = ["Model.DataFile", "Model.Store"]
 
 
 def gen_scenario(rng, d):
@@ -102,7 +102,7 @@ def tsv_rows(data):
 
 
 def run(chk):
-    chk.prove(models=["Model/DataFile"])
+    chk.prove(models=["Model/DataFile", "Model/Store"])
     rng = chk.rng
     n = 300 if chk.tier == "quick" else 1500
     exprs, checks = [], []
@@ -118,6 +118,7 @@ def run(chk):
             prev = {f: b"" for f in files}
             expected = {f: [] for f in files}     # (bench, inv, iteration, criterion, value, unit)
             keys = {f: dh.Keys() for f in files}
+            store_prev_rows = {}
             nses = rng.randint(1, 3)
             for sidx in range(nses):
                 nsessions += 1
@@ -198,6 +199,27 @@ def run(chk):
                     exprs.append(("load", dict(case, file=os.path.basename(f)), resl,
                                   "sx_lstate (load %s)" % dh.coq_file(all_lines)))
                     prev[f] = now
+                # ---- model: which file a data point goes to (Model.Store) - the runs, their files and the data points delivered
+                #      in this session vs what each file received, in order
+                run_ix, ds, member = {}, [], []
+                for (key, inv) in delivered:
+                    su, bench = key.split("/")
+                    if key not in run_ix:
+                        run_ix[key] = len(run_ix)
+                        # one entry per selected experiment that contains the run (the same file may be named twice)
+                        member.append([files.index(sc["exp_file"][x]) for x in selected if suites_of[x] == su])
+                    for it, ms in enumerate(output_for(sc, bench, inv)[1], 1):
+                        ds.append((run_ix[key], inv * 1000 + it))
+                got_store = []
+                for f in files:
+                    rows_f = tsv_rows(dh.read_bytes(f))[1]
+                    old_n = store_prev_rows.get(f, 0)
+                    got_store.append([[run_ix.get("%s/%s" % (r[7], r[5]), -1), int(r[0]) * 1000 + int(r[1])] for _, r in rows_f[old_n:] if r[4] == "total"])
+                    store_prev_rows[f] = len(rows_f)
+                exprs.append(("store", dict(case, files=[os.path.basename(f) for f in files]), got_store,
+                              "sx_store %d%%nat (session (fun r => nth r %s []) %s)" % (
+                                  len(files), "(%s : list (list nat))" % core.coq_list([core.coq_list([core.coq_nat(x) for x in m_]) for m_ in member]),
+                                  "(%s : list rec)" % core.coq_list(["{| r_run := %s; r_serial := %s |}" % (core.coq_nat(a), core.coq_nat(b)) for a, b in ds]))))
                 chk.case(("scenario", i, sidx), sample=dict(files=[os.path.basename(f) for f in files], experiment=exp_name,
                                                            criteria=sc["ncrit"], iterations=sc["niter"], warmup=sc["warmup"])
                          if nsessions == 5 else None)
@@ -250,7 +272,13 @@ def run(chk):
     if res is not None:
         ndis = 0
         for (kind, case, obs, _), m in zip(exprs, res):
-            if kind == "append":
+            if kind == "store":
+                if m != obs:
+                    ndis += 1
+                    if ndis <= 3:
+                        chk.obligation_broken("correspondence", "Model.Store.session vs the data points each file received",
+                                              "case %s\n files received %s\n model         %s" % (json.dumps(case, default=str)[:800], obs, m))
+            elif kind == "append":
                 ml = [dh.line_of_sx(x) for x in m]
                 if ml != obs:
                     ndis += 1
